@@ -21,6 +21,17 @@ pub enum Proxy {
 }
 
 pub async fn get_request_addr(stream: &mut TcpStream) -> anyhow::Result<Address> {
+    let address = handshake(stream).await?;
+    // both wire encodings carry a domain name behind a one-byte length
+    if let Address::Domain(host, _) = &address {
+        if host.is_empty() || host.len() > u8::MAX as usize {
+            bail!("unrepresentable target: the host name is {} bytes long", host.len());
+        }
+    }
+    Ok(address)
+}
+
+async fn handshake(stream: &mut TcpStream) -> anyhow::Result<Address> {
     tokio::time::timeout(Duration::from_secs(30), async {
         let next = recognize(stream).await?;
         match next {
